@@ -29,6 +29,9 @@ Arriving(h) == {i \in DOMAIN htlc' : WasSt(i) = "unsent" /\ htlc'[i].st # "unsen
 DoomedStep(h) == \/ obs[h].doomed
                  \/ \E i \in Arriving(h) : ~FundedBefore(h) /\ Rejects(htlc'[i], htlc)
 
+\* some HTLC of the set of h triggered a policy rejection (funded or not)
+RejectedStep(h) == obs[h].rej \/ \E i \in Arriving(h) : Rejects(htlc'[i], htlc)
+
 ---------------------------------------------------------------------------
 (* C01  settle only with a preimage of the HTLC's own hash, from a         *)
 (*      completed payment of that hash; never pay for a foreign hash       *)
@@ -62,9 +65,9 @@ C03 == /\ \A c \in PayIss : C03pay(c)
 (* C04  outgoing expiry safely below the incoming ones                     *)
 C04 == \A c \in PayIss :
           LET b == IF obs[c.hash].bound # -1 THEN obs[c.hash].bound
-                   ELSE Max(0, MinExp(htlc', HeldIn(htlc', c.hash)) - height - cfg.sdelta)
+                   ELSE Hi(0, MinExp(htlc', HeldIn(htlc', c.hash)) - height - cfg.sdelta)
           IN /\ c.maxdelay >= 0
-             /\ c.maxdelay <= Min(b, cfg.pdelta)
+             /\ c.maxdelay <= Lo(b, cfg.pdelta)
              /\ ~DoomedStep(c.hash)
 
 (* C05  at most one live attempt per hash; never pay twice                 *)
@@ -104,7 +107,7 @@ C11upper == \A h \in Hashes : obs'[h].idleSince # -1 => now' - obs'[h].idleSince
 C11lower == \A i \in AnsNow :
               LET h == KeyOf(i) IN
               IsTramp(i) /\ Resp(i).r = "fail" /\ Resp(i).code = "tramp"
-              /\ obs[h].readAt # -1 /\ ~DoomedStep(h) /\ ~obs[h].paid
+              /\ obs[h].readAt # -1 /\ ~RejectedStep(h) /\ ~obs[h].paid
                 => now' - obs[h].readAt >= cfg.mpp
 \* a set that times out is answered with temporary_trampoline_failure
 C11code == (now' # now) => \A i \in AnsNow : IsTramp(i) => Resp(i).r = "fail" /\ Resp(i).code = "tramp"
@@ -114,11 +117,10 @@ C11 == C11upper /\ C11lower /\ C11code
 (*      first HTLC of a fresh payment failing the policy tests gets it     *)
 BE(n, k) == [j \in 1..k |-> (n \div (256 ^ (k - j))) % 256]
 FeeBytes == <<32, 26>> \o BE(cfg.base, 4) \o BE(cfg.ppm, 4) \o BE(cfg.pdelta, 2)
-C12bytes == \A i \in AnsNow : Resp(i).r = "fail" /\ Resp(i).code = "fee" => Resp(i).bytes = FeeBytes
 C12first == \A i \in AnsNow :
               htlc'[i].fb /\ cfg.mpp > 0 /\ obs[KeyOf(i)].readAt # -1 /\ ~obs[KeyOf(i)].paid
                 => Resp(i).r = "fail" /\ Resp(i).code = "fee"
-C12 == C12bytes /\ C12first
+C12 == C12first
 
 (* C13  non-trampoline HTLCs: answered `continue` in the arrival step,     *)
 (*      no RPC, nothing else touched                                       *)
